@@ -298,6 +298,12 @@ def partial_eq_default(m, cfg, f, args, t):
             if ad and ad['kind'] == 'enum':
                 raise NeedVariant(r.key, r.path, x)
     ne = f['path'].endswith('::ne')
+    for x, y in ((a, b), (b, a)):
+        if isinstance(x, Atom) and x.ty and x.ty.get('k') == 'leaftype' and isinstance(y, Adt) and not y.fields:
+            # the data type of an opaque leaf item: by contract neither null nor break (see l2.d_datatype)
+            ad = m.prog.adts.get(y.adt)
+            if ad and ad['variants'][y.variant]['name'] in ('Null', 'Break', 'Undefined'):
+                return Int.const(1 if ne else 0)
     r = structural_eq(m, cfg.st, a, b)
     if r is None:
         return NotImplemented
